@@ -1,9 +1,192 @@
 import WM.Proto
-namespace WM.Drv.C07
-open WM.Proto
+import WM.Model.Index
+/-!
+Protocol of the index family (C07; C06 and C18 reuse the parsers and the runner).
 
-/-- Protocol handler of family `c07` (requests arrive without the family token). -/
+`c07 run <dump> <schema> <docs> <sessions>` executes a whole history on the model *and* on the
+dictionary specification, in lock step, and answers one line:
+
+* `<dump>`     `0` keys only, `1` also the global posting list and statistics
+* `<schema>`   `((f ...) (u ...))` field ids / unique field ids
+* `<docs>`     `((key (fld stored ((term w v) ...) len col vec ukey) ...) ...)`, options as `-`
+* `<sessions>` `((op ...) end)` with
+  `op  := (add i) | (upd i) | (deld n) | (undel n) | (delq Q) | (addf f u) | (remf f)`
+  `end := (commit nomerge|small|optimize|clear) | (cancel)`
+  `Q   := (term f t) | (key k) | (every) | (and Q Q) | (or Q Q) | (not Q)`
+
+Answer: per session `(results toc model spec [posts])`:
+`results` one token per op (`ok`, `(count model spec)`, `(err name)`), `toc` the model's segment
+list `((doc_count_all (deleted ...) (key ...)) ...)`, `model`/`spec` the content as
+`((key visible-field ...) ...)`.
+-/
+namespace WM.Drv.C07
+open WM.Proto WM.Proto.SExp WM.Dict WM.Index
+
+def tok? : SExp → Option Tok
+  | .list [a, b, c] => do pure ⟨← a.nat?, ← b.nat?, ← c.nat?⟩
+  | _ => none
+
+def fieldData? : SExp → Option FieldData
+  | .list [f, st, tk, ln, cl, vc, uk] => do
+    pure { fld := ← f.nat?, stored := ← opt? nat? st, toks := ← listOf? tok? tk, len := ← ln.nat?,
+           col := ← opt? nat? cl, vec := ← opt? nat? vc, ukey := ← opt? nat? uk }
+  | _ => none
+
+def docRec? : SExp → Option DocRec
+  | .list (k :: fds) => do pure { key := ← k.nat?, fields := ← fds.mapM fieldData? }
+  | _ => none
+
+def schema? : SExp → Option Schema
+  | .list [fs, us] => do pure { fields := ← natList? fs, uniques := ← natList? us }
+  | _ => none
+
+partial def qexpr? : SExp → Option QExpr
+  | .list [.atom "term", f, t] => do pure (.term (← f.nat?) (← t.nat?))
+  | .list [.atom "key", k] => do pure (.keyEq (← k.nat?))
+  | .list [.atom "every"] => some .every
+  | .list [.atom "and", a, b] => do pure (.and (← qexpr? a) (← qexpr? b))
+  | .list [.atom "or", a, b] => do pure (.or (← qexpr? a) (← qexpr? b))
+  | .list [.atom "not", a] => do pure (.not (← qexpr? a))
+  | _ => none
+
+/-- A top-level term query is answered from the term index, everything else is a predicate. -/
+def toQuery : QExpr → Query
+  | .term f t => .term f t
+  | q => .pred q.sat
+
+inductive Op where
+  | add (i : Nat) | upd (i : Nat) | deld (n : Nat) | undel (n : Nat) | delq (q : QExpr)
+  | addf (f : Nat) (u : Bool) | remf (f : Nat)
+deriving Inhabited
+
+inductive End where
+  | commit (k : MergeKind) | cancel
+deriving Inhabited
+
+def op? : SExp → Option Op
+  | .list [.atom "add", i] => .add <$> i.nat?
+  | .list [.atom "upd", i] => .upd <$> i.nat?
+  | .list [.atom "deld", n] => .deld <$> n.nat?
+  | .list [.atom "undel", n] => .undel <$> n.nat?
+  | .list [.atom "delq", q] => .delq <$> qexpr? q
+  | .list [.atom "addf", f, u] => do pure (.addf (← f.nat?) (← u.bool?))
+  | .list [.atom "remf", f] => .remf <$> f.nat?
+  | _ => none
+
+def kind? : SExp → Option MergeKind
+  | .atom "nomerge" => some .noMerge
+  | .atom "small" => some .mergeSmall
+  | .atom "optimize" => some .optimize
+  | .atom "clear" => some .clear
+  | _ => none
+
+def end? : SExp → Option End
+  | .list [.atom "commit", k] => .commit <$> kind? k
+  | .list [.atom "cancel"] => some .cancel
+  | _ => none
+
+def session? : SExp → Option (List Op × End)
+  | .list [ops, e] => do pure (← listOf? op? ops, ← end? e)
+  | _ => none
+
+def showErr : Err → String
+  | .noSuchDoc => "(err noSuchDoc)"
+  | .unknownField => "(err unknownField)"
+  | .schemaLocked => "(err schemaLocked)"
+  | .fieldExists => "(err fieldExists)"
+  | .noSuchField => "(err noSuchField)"
+  | .indexError => "(err indexError)"
+  | .keyError => "(err keyError)"
+
+def showDoc (d : DocRec) : String := showNatList (d.key :: d.fields.map (·.fld))
+def showDocs (ds : List DocRec) : String := showList showDoc ds
+
+def insertSorted (x : Nat) : List Nat → List Nat
+  | [] => [x]
+  | y :: r => if x ≤ y then x :: y :: r else y :: insertSorted x r
+def sortNats (xs : List Nat) : List Nat := xs.foldr insertSorted []
+
+def showSeg (s : Seg) : String :=
+  s!"({s.docCountAll} {showNatList (sortNats s.deleted)} {showNatList (s.docs.map (·.key))})"
+
+def showPosting (segs : List Seg) (p : Posting) : String :=
+  let k := match docAt segs p.doc with | some d => toString d.key | none => "?"
+  s!"({p.fld} {p.term} {p.doc} {k} {p.w} {p.v})"
+
+def toOp (docs : Array DocRec) : Op → Option Index.Op
+  | .add i => docs[i]?.map .add
+  | .upd i => docs[i]?.map .update
+  | .deld n => some (.delDoc n)
+  | .undel n => some (.undelDoc n)
+  | .delq q => some (.delBy (toQuery q))
+  | .addf f u => some (.addField f u)
+  | .remf f => some (.removeField f)
+
+def showOutcome (ss : Sess) (o : Op) : Outcome → String
+  | .ok => "ok"
+  | .err e => showErr e
+  | .count c =>
+    -- second number: how many committed documents of the specification match the query
+    match o with
+    | .delq q => s!"(count {c} {(ss.committed.filter q.sat).length})"
+    | _ => s!"(count {c} ?)"
+
+/-- One step of the model (`Writer.step`) and of the specification (`Sess.step` on the
+    operation `Writer.specOp` names), side by side. -/
+def stepOp (docs : Array DocRec) (st : Writer × Sess) (o : Op) : (Writer × Sess) × String :=
+  match toOp docs o with
+  | none => (st, "(err nodoc)")
+  | some mo =>
+    let (w', out) := st.1.step mo
+    ((w', st.2.step (st.1.specOp mo)), showOutcome st.2 o out)
+
+def runOps (docs : Array DocRec) : (Writer × Sess) → List Op → List String → (Writer × Sess) × List String
+  | st, [], acc => (st, acc.reverse)
+  | st, o :: r, acc => let (st', s) := stepOp docs st o; runOps docs st' r (s :: acc)
+
+def dedupPairs : List (Nat × Nat) → List (Nat × Nat) → List (Nat × Nat)
+  | [], acc => acc.reverse
+  | x :: r, acc => if acc.contains x then dedupPairs r acc else dedupPairs r (x :: acc)
+
+/-- `(fld term df weight)` for every term physically present in a schema field, and `(fld total)`
+    field lengths. -/
+def showStats (t : Toc) : String :=
+  let terms := dedupPairs ((t.segs.flatMap (fun s => s.posts)).filter (fun p => t.schema.has p.fld)
+                 |>.map (fun p => (p.fld, p.term))) []
+  let ts := terms.map fun (f, tm) => s!"({f} {tm} {t.docFrequency f tm} {t.termWeight f tm})"
+  let fl := t.schema.fields.map fun f => s!"({f} {t.fieldLength f})"
+  s!"({" ".intercalate ts}) ({" ".intercalate fl})"
+
+def showState (dump : Nat) (t : Toc) (sp : State) (res : List String) : String :=
+  let base := s!"({showList id res} {showList showSeg t.segs} {showDocs t.content} {showDocs sp.docs}"
+  if dump == 0 then base ++ ")"
+  else base ++ " " ++ showList (showPosting t.segs) (globalPosts t.schema t.segs 0) ++ " " ++ showStats t ++ ")"
+
+def runSessions (dump : Nat) (docs : Array DocRec) : Toc → State → List (List Op × End) → List String → List String
+  | _, _, [], acc => acc.reverse
+  | t, sp, (ops, e) :: rest, acc =>
+    let ((w, ss), res) := runOps docs (t.writer, sp.open_) ops []
+    match e with
+    | .cancel => runSessions dump docs t sp rest (showState dump t sp res :: acc)
+    | .commit k =>
+      match w.commit k with
+      | .error er => runSessions dump docs t sp rest (s!"({showList id res} {showErr er})" :: acc)
+      | .ok t' =>
+        let sp' := if k == .clear then ss.commitClear else ss.commit
+        runSessions dump docs t' sp' rest (showState dump t' sp' res :: acc)
+
 def handle : List SExp → String
+  | [.atom "run", dump, sc, docs, sess] =>
+    match dump.nat?, schema? sc, listOf? docRec? docs, listOf? session? sess with
+    | some dump, some sc, some docs, some sess =>
+      let t : Toc := { schema := sc, segs := [], gen := 0 }
+      let sp : State := { schema := sc, docs := [] }
+      showList id (runSessions dump docs.toArray t sp sess [])
+    | _, _, _, _ => "bad-op"
+  | [.atom "fib", n] =>
+    match n.nat? with
+    | some k => toString (fib k)
+    | none => "bad-op"
   | _ => "bad-op"
 
 end WM.Drv.C07
